@@ -57,7 +57,7 @@ def parseFiles : Nat → Nat → List String → Option (List J)
   | _, 0, [] => some []
   | _, 0, _ :: _ => none
   | fuel + 1, n + 1, toks => do
-    let (x, rest) ← parseVal (toks.length + 1) toks
+    let (x, rest) ← parseVal (2 * toks.length + 2) toks
     let xs ← parseFiles fuel n rest
     pure (x :: xs)
 
